@@ -25,8 +25,10 @@ CFG = dict(
              "SliceByPlaneTransformer, ColorGradingLut, VertexColorSpace, SmoothNormalsImplicitWeld (finite positions only), LaplacianSmoothAlongAxis, ScaleAttributeAlongNormal "
              "(+Transformer), ScaleAttribute2D, NormalizeAttribute2D",
              "triangulation.BowyerWatson: bowyerWatson_wf is about the C20 model Model/Delaunay.lean (every enumeration order of the triangle map), tied to Go by the C20 correspondence and here by the WF oracle; "
-             "generators without a theorem, WF oracle only: triangulation.ConstrainedBowyerWatson (with constraint polygons that clip triangles and add "
-             "points), repeat/{circle,line,curve,fibonacci}.go point generators; CircleAlongSpline.Extrude is covered by extrudePolygon_wf through the polygon_idx oracle",
+             "triangulation.ConstrainedBowyerWatson: constrainedBowyerWatson_wf is about an abstract model of the clipping events (Model/ConstrainedBW.lean; geometry is a parameter), "
+             "tied by the structural oracle cbw_shape and the WF oracle only; WF oracle only (no theorem): node wrappers (Process) of primitives / meshops / repeat / extrude without input, "
+             "simplify.QuadricDecimation, pipeline.Pipeline{}.Run, animation.WeightMeshWithHeatDiffusion, formats/colmap and opensfm point-cloud constructors; file readers are other "
+             "properties' (C04 C05 C07 C08 C14 C15). Full table: notes/C02.md",
              "the generator theorems are about the Lean index generators; their link to the Go constructors is the exact comparison of (vertex count, index list) on parameter sweeps: "
              "exhaustive 0..8 (quick) / 0..24 (thorough) plus fixed and sampled NON-SQUARE parameters (rows >> columns and columns >> rows, rows = columns + 2..4) up to 512 in thorough",
              "marching cubes: marchBlock_wf / march_wf / march_blocks_wf are about an abstract model of the LookupOrAdd allocation and the Append fold (any emitted triangles); it is tied "
@@ -48,7 +50,7 @@ CFG = dict(
              "length/range guards (theorems setIndices_wf, setAttr_wf, setAttr_delete_wf, setData_wf, clearAttrs_wf, and guarded Step constructors); with other data they are builders "
              "whose result the caller completes (outside the theorem, observed only). Generators: every index in range and count divisible by 3 for ALL parameters of the Lean index "
              "generators of UV sphere (welded/unwelded), hemisphere, circle and cone (sides >= 3), cylinder (all cap choices), quad, cube tables, extrude shape/line/polygon (every "
-             "list of winding flags; also Circle.Extrude, CircleAlongSpline), screw, and an abstract marching-cubes block allocation + append fold. Tie: exact (vertex count, index "
+             "list of winding flags; also Circle.Extrude, CircleAlongSpline and the node wrappers; rejection branch stated: extrusions_total), screw, and an abstract marching-cubes block allocation + append fold. Tie: exact (vertex count, index "
              "list) comparison of every modelled generator with the Go constructor on sweeps from parameter 0 upward (exhaustive <= 24, non-square samples up to 512; invalid "
              "parameters must be rejected on both sides); op sequences compared with the model (shape); the WF predicate evaluated on EVERY mesh the implementation returns, "
              "including un-modelled operations (slice by plane, colour LUT/space, implicit-weld normals, axis Laplacian, scale along normal, 2-D scale/normalise) and un-modelled "
